@@ -8,3 +8,4 @@ def check(rep, tier):
     rep.run(containers.run_exact, rep, tier)
     from contracts import containers_unbounded
     rep.run(containers_unbounded.run, rep, tier)
+    rep.run(containers.run_flatten_layout, rep)
